@@ -347,6 +347,14 @@ func getEvaluatedArgsWithBlock(
 		return argTs, err
 	}
 
+	// a call inside the arguments has replaced the call the block belongs to
+	m.parser.SetLastCallFrameDetails(
+		m.evaluatedObjectT.GetFrame(),
+		m.evaluatedObjectT.GetObjectClass(),
+		m.method,
+	)
+	m.parser.SetLastResolvedMethodT(nil)
+
 	return expectBlockArgProcess(m, methodT, argTs)
 }
 
